@@ -639,6 +639,31 @@ Section Proofs.
     - unfold good. cbn. split; [apply req_full_refl|]. split; [reflexivity|exact Hw].
     - apply good_step; assumption.
   Qed.
+
+  (* a run that cached no search leaves no .bfg_find_cache (FindCacheFile.save removes it), so no state of an earlier,
+     searching, version of the scripts can make a later lazy regeneration skip: whatever the world has become, the
+     scripts are run and the result is that of a fresh configure *)
+  Theorem nothing_cached_never_skips : forall (r : result) (w : world),
+    r_cache r = [] -> lazy true fxc w (save r) = Ran (fresh true w).
+  Proof. intros r w H. unfold Regen.save. rewrite H. reflexivity. Qed.
+
+  (* ... and a configuration without a cached call caches nothing, whatever was pre-filled from an old cache file is
+     irrelevant to what gets saved only when nothing was pre-filled: the fresh run *)
+  Lemma run_calls_uncached_cache t cs : forall s,
+    forallb (fun c => negb (c_cached c)) cs = true -> st_cache (run_calls true t s cs) = st_cache s.
+  Proof.
+    induction cs as [|c cs IH]; intros s H; [reflexivity|].
+    cbn in H. apply andb_true_iff in H. destruct H as [Hc Hr].
+    cbn [Regen.run_calls]. rewrite (IH _ Hr). unfold Regen.step_call.
+    apply negb_true_iff in Hc. rewrite Hc. reflexivity.
+  Qed.
+
+  Theorem no_cached_call_no_cache_file : forall (w : world),
+    forallb (fun c => negb (c_cached c)) (cf_calls (w_conf w)) = true -> save (fresh true w) = None.
+  Proof.
+    intros w H. unfold Regen.save, Regen.fresh, Regen.run. cbn [r_cache].
+    rewrite (run_calls_uncached_cache _ _ _ H). reflexivity.
+  Qed.
 End Proofs.
 
 (* ------------------------------------------------------------------ concrete worlds (witnesses, non-vacuity) *)
